@@ -64,6 +64,15 @@ def damage(rnd, text, tier):
                 words.insert(i, rnd.choice(['is', 'whenever', 'a', 'node', 'X', 'then', '$$', 'not']))
             t = ' '.join(words)
         out.append((kind, t))
+    # a block comment (several lines, or inline before the rest of a line) ahead of a stray character: the diagnostic must still be built
+    # from the line and column of the FILE (positions in a text the comments were removed from are other positions)
+    for _ in range(2 if tier == 'thorough' else 1):
+        starts = [0] + [i + 1 for i, c in enumerate(text) if c == '\n' and i + 1 < n]
+        pos = rnd.choice(starts)
+        cmt = rnd.choice(['/* header\n   of several\n   lines */\n', '/* note */ ', '/* a\n b */ '])
+        t = text[:pos] + cmt + text[pos:]
+        pos2 = rnd.randrange(pos + len(cmt), len(t) + 1)
+        out.append(('cmt', t[:pos2] + rnd.choice('$#@') + t[pos2:]))
     return out
 
 
